@@ -32,7 +32,7 @@ func (r *rng) u64() uint64 {
 	z = (z ^ (z >> 27)) * 0x94D049BB133111EB
 	return z ^ (z >> 31)
 }
-func (r *rng) n(n int) int { return int(r.u64() % uint64(n)) }
+func (r *rng) n(n int) int             { return int(r.u64() % uint64(n)) }
 func (r *rng) pick(ss []string) string { return ss[r.n(len(ss))] }
 
 type fp struct{ h uint64 }
